@@ -138,15 +138,7 @@ func runLeafCase(rep *vevid.Report, b *vbox.Box, c lcase, tr timeutil.TimeRange,
 	case "db":
 		req.PhysicalPlan = []byte(strings.Replace(string(req.PhysicalPlan), `"database":"db"`, `"database":"nodb"`, 1))
 	}
-	resps, perr := b.LeafOnce(procNode, req, horizon, quiet)
-	if perr != nil {
-		// Process refused the request: the rpc layer answers with exactly this error (one response)
-		rep.Outcome("process-error")
-		if c.Corrupt == "" && c.Expect == "ok" && len(c.Shards) > 0 && !strings.Contains(perr.Error(), "not found") {
-			viol("valid-request-refused", "Process returned "+perr.Error())
-		}
-		return
-	}
+	resps := b.LeafOnce(procNode, req, horizon, quiet)
 	rep.DistinctNontrivial++
 	if c.Corrupt != "" {
 		// a corrupted request must not be answered with a successful response
